@@ -38,11 +38,15 @@ def py_index(ix):
                 return Ellipsis
             if "array" in e:
                 arr_ = np.asarray(e["array"], dtype=np.dtype(e.get("dtype", "int64"))).reshape(e.get("shape", [-1]))
+                if e.get("as_list") and not e.get("as_tensor"):
+                    return arr_.tolist()                                      # a plain (nested) Python list of ints
                 return mg.tensor(arr_) if e.get("as_tensor") else arr_        # an integer Tensor is an index array too
             if "bool" in e:
                 return np.asarray(e["bool"], dtype=bool).reshape(e["shape"])
         return e
     if isinstance(ix, list):
+        if len(ix) == 1 and isinstance(ix[0], dict) and ix[0].get("lone"):
+            return one(ix[0])                                                 # x[idx], not x[(idx,)]
         return tuple(one(e) for e in ix)
     return one(ix)
 
